@@ -7,6 +7,7 @@ import DM.Lemmas.X12RT
 import DM.Lemmas.B256RT
 import DM.Lemmas.EdiRT
 import DM.Lemmas.C40RT
+import DM.Lemmas.MainRT
 /-!
 # C01 — the symbol-level half of the round trip, for all sizes and all contents
 
@@ -306,5 +307,38 @@ example : DM.Model.Enc.run (symbolList (List.range 30)) [] [97, 98, 99, 200] [(4
     .ok ([239, 89, 233, 10, 243, 50, 71, 254], 3) := by decide +kernel
 example : DM.Model.Enc.run (symbolList (List.range 30)) [] [65, 66, 67, 68, 69, 70, 33] [(7, .c40), (0, .c40)] =
     .ok ([230, 89, 233, 109, 36, 6, 66, 254], 3) := by decide +kernel
+
+/-! ## The data-level half for mixed plans
+
+`mixed_roundtrip`: for **every plan** over ASCII, C40, Text, X12 and Base 256 in which no latch to a
+non-ASCII mode is scheduled for the last four characters (`PlanOK`, decidable; EDIFACT segments are
+covered by `edifact_roundtrip` for pure plans only), whatever the encoder model returns decodes to
+the message. Proof: an invariant of `GenericDataEncoder::codewords`' main loop (`MainRT.MI`: the
+decoder model, run on the codewords written so far followed by any legal continuation, has consumed
+exactly those codewords, is back in ASCII mode and has produced the characters consumed so far; or
+the end game "one more ASCII codeword fills the symbol"; or "done, exact fit"), preserved by each
+mode encoder started at any position with any plan (`asciiLoop_gen`, `c40Loop_gen`, `x12Encode_gen`,
+`b256Loop_gen`), including planned switches inside `handle_end` / `write_length`.
+The side condition excludes the plans for which the round trip is false (stale latch after
+`set_ascii_until_end`, DESIGN.md §0.6); the check reports how many of the optimiser's plans in the
+sweep satisfy it. -/
+
+open DM.Lemmas.C40Gen in
+theorem mixed_roundtrip (list : List Sym) (body cw : List Nat) (plan : List (Nat × DM.Model.Enc.EMode)) (sym : Sym)
+    (hb : ∀ b ∈ body, b < 256)
+    (hplan : ∀ e ∈ plan, (e.2 ≠ .ascii → e.1 = 0 ∨ e.1 > 4) ∧ e.2 ≠ .edifact)
+    (h : DM.Model.Enc.run list [] body plan = .ok (cw, sym)) :
+    DM.Model.Dec.decodeData cw = .ok body :=
+  DM.Lemmas.MainRT.general_roundtrip list body cw plan sym hb hplan h
+
+/-- Non-vacuity: C40, then ASCII digit pairs, then Base 256, then X12 — the plan satisfies the side
+condition and the run succeeds. -/
+example : (∀ e ∈ [(26, DM.Model.Enc.EMode.c40), (20, .ascii), (12, .base256), (6, .x12), (0, .x12)],
+    (e.2 ≠ DM.Model.Enc.EMode.ascii → e.1 = 0 ∨ e.1 > 4) ∧ e.2 ≠ .edifact) := by decide
+example : DM.Model.Enc.run (symbolList (List.range 30)) []
+    [65, 66, 67, 68, 69, 70, 49, 50, 51, 52, 53, 54, 55, 56, 200, 201, 202, 203, 204, 205, 65, 66, 67, 13, 42, 62]
+    [(26, .c40), (20, .ascii), (12, .base256), (6, .x12), (0, .x12)] =
+    .ok ([230, 89, 233, 109, 36, 254, 142, 164, 186, 208, 231, 10, 97, 248, 142, 37, 187, 82, 238, 89, 233, 0, 43, 254], 11) := by
+  decide +kernel
 
 end DM.Props.C01
